@@ -1256,10 +1256,12 @@ func srcOf(n ast.Node) string {
 	}
 	switch e := n.(type) {
 	case ast.Expr:
-		return types.ExprString(e)
+		return normExpr(loopHeaderInfo, e) // locals as `$k:T`: the header text is part of the key of an assumed loop
 	}
 	return ""
 }
+
+var loopHeaderInfo *types.Info
 
 func (x *fnCtx) register(node ast.Stmt, kind, cond string, head *cmd) *loopRec {
 	if x.quiet {
@@ -1710,6 +1712,7 @@ func extractLoops(pkgs []*packages.Package, facts *Facts, leanDir string) {
 		return a.Line < b.Line
 	})
 	info := parserPkg.TypesInfo
+	loopHeaderInfo = info
 	for i, d := range decls {
 		obj, _ := info.Defs[d.fd.Name].(*types.Func)
 		r := &fnRec{idx: i, name: d.fd.Name.Name, pos: pos(d.fd.Pos()), obj: obj, decl: d.fd}
